@@ -9,15 +9,8 @@ From AwVerif Require Import Base.Prelude Model.StoreBase Model.SqliteStore Model
   Proofs.EventProofs Proofs.IsoTimeProofs Proofs.Codec.
 Open Scope Z_scope.
 
-(* ---------- peewee: the DATETIME cell holds str(timestamp) ---------- *)
-Theorem peewee_ts_roundtrip : forall t, ms_aligned t -> 0 <= t <= y2100 ->
-  peewee_ts_dec (peewee_ts_enc t) = Ok t.
-Proof.
-  intros t A H. unfold peewee_ts_dec, peewee_ts_enc, str_utc.
-  rewrite (normalise_str _ t 0); [now rewrite (floor_ms_aligned t A)| |exact H|reflexivity].
-  apply parse_isoformat; [now right|exact H].
-Qed.
-
+(* ---------- peewee: timestamp text and duration float together ---------- *)
+(* (peewee_ts_roundtrip: Proofs/Codec.v, via IsoTimeProofs.parse_isoformat + EventProofs.normalise_str) *)
 Theorem peewee_codec_roundtrip : forall t d, ms_aligned t -> 0 <= t <= y2100 -> Z.abs d < codec_bound ->
   peewee_ts_dec (peewee_ts_enc t) = Ok t /\ bind (peewee_dur_enc d) peewee_dur_dec = Ok d.
 Proof.
@@ -85,3 +78,25 @@ Theorem peewee_row_decode : forall r,
   peewee_ts_dec (peewee_ts_enc (pe_ts r)) = Ok (ts (prow_event r)) /\
   bind (peewee_dur_enc (pe_dur r)) peewee_dur_dec = Ok (dur (prow_event r)).
 Proof. intros r A H D. cbn [prow_event ts dur]. now apply peewee_codec_roundtrip. Qed.
+
+(* ---------- one INSERT, then the real decode of the row it wrote ---------- *)
+Theorem sqlite_insert_reads_back : forall c b e c' i,
+  sql_insert_event c b e = Ok (c', i) ->
+  ms_aligned (ts e) -> 0 <= ts e -> 0 <= dur e -> ts e + dur e < 2 ^ 52 ->
+  exists r, In r (sq_events c') /\ er_id r = i /\ sqlite_dec (er_start r, er_end r) = Ok (ts e, dur e).
+Proof.
+  intros c b e c' i H A Ht Hd Hb. destruct (sqlite_insert_cells_are_enc c b e c' i H) as [r [Ir [Ei Ec]]].
+  exists r. split; [exact Ir|]. split; [exact Ei|]. rewrite Ec. now apply sqlite_codec_roundtrip_52.
+Qed.
+
+Theorem peewee_insert_reads_back : forall c k e,
+  ms_aligned (ts e) -> 0 <= ts e <= y2100 -> Z.abs (dur e) < codec_bound ->
+  exists r, In r (pw_events (fst (pw_insert_event c k e))) /\ pe_id r = snd (pw_insert_event c k e) /\
+            pe_bucket r = k /\ pe_data r = data e /\
+            peewee_ts_dec (peewee_ts_enc (pe_ts r)) = Ok (ts e) /\
+            bind (peewee_dur_enc (pe_dur r)) peewee_dur_dec = Ok (dur e).
+Proof.
+  intros c k e A Ht Hd. eexists. split; [cbn; apply in_app_iff; right; now left|].
+  cbn [pe_id pe_bucket pe_data pe_ts pe_dur]. repeat (split; [reflexivity|]).
+  now apply peewee_codec_roundtrip.
+Qed.
